@@ -1962,6 +1962,24 @@ foamToSExpr(Foam foam)
 
 #define croak(sx, msg)	comsgFatal(abNewNothing(sxiPos(sx)), msg)
 
+/*
+ * A machine integer read from FOAM text may be wider than an immediate big integer.
+ */
+local AInt
+foamIntegerFrBInt(BInt b)
+{
+	AInt	n;
+	int	i;
+
+	if (bintIsSmall(b)) return bintSmall(b);
+
+	for (i = bitsizeof(AInt) - 1, n = 0; i >= 0; i--) {
+		n = n << 1;
+		if (bintBit(b, i)) n++;
+	}
+	return bintIsNeg(b) ? -n : n;
+}
+
 Foam
 foamFrSExpr(SExpr sx)
 {
@@ -2007,7 +2025,7 @@ foamFrSExpr(SExpr sx)
 		case 'w':
 		case 'i':
 			if (!sxiIntegerP(sxi)) croak(sxi, ALDOR_F_LoadNotInteger);
-			foamArgv(foam)[si].data = sxiToInteger(sxi);
+			foamArgv(foam)[si].data = foamIntegerFrBInt(sxi->sxInteger.val);
 			break;
 		case 't':
 		case 'o':
